@@ -82,7 +82,8 @@ ASSUMPTIONS = [
     "when perf.enabled && perf.metrics.report_memory (metrics gate) the t2.jsonl keys 't2q.*' echo the quality CONFIG "
     "(t2q.mmr.lambda is present whenever quality.enabled) and the fusion layer's own telemetry; they are masked on both "
     "sides for fusion/MMR/items_for_fusion faults only; with the gate off nothing is masked",
-    "health.jsonl is compared too but a difference there alone is only labelled (the property names t1/t2/t4/apply/turn)",
+    "health.jsonl is compared too but a difference there alone is only labelled (the property names t1/t2/t4/apply/turn); "
+    "TurnResult.line (the returned result) must equal the baseline's",
     "valid foreign JSON objects / valid snapshots with wrong-typed fields: only 'returns and emits records' is demanded",
     "store double: InMemoryGraphStore.apply_deltas cannot digest ProposedDelta objects (it always raises and apply falls "
     "back), so all runs use an 'ok' apply_deltas double returning {'edits': len(deltas)}",
@@ -207,6 +208,12 @@ BOOT_KINDS = {"boot._read_header_payload": ["garbage", "own"], "boot._import_sto
 
 # sites whose fault escapes run_turn on the unchanged tree: finding id -> site names (filled by the known-finding path)
 KNOWN_ESCAPES = {}
+
+
+def _fast_tmp():
+    """Sandboxes on tmpfs when available (every turn fsyncs its snapshot and log appends): only speed, no semantics."""
+    if not os.environ.get("VERIF_TMP") and os.path.isdir("/dev/shm") and os.access("/dev/shm", os.W_OK):
+        os.environ["VERIF_TMP"] = "/dev/shm"
 
 
 # =====================================================================================================
@@ -337,6 +344,13 @@ class _Env:
         self.raised = {}     # site -> times it raised
         self.boot_reads = []  # paths handed to snapshot._read_text during the boot phase
         self.restore = []
+        self.turn = 0
+        self.raised_by_turn = {}  # turn index (0-based) -> set of site names that raised during that turn
+        self.store_mode = "ok"
+
+    def mark(self, name):
+        self.raised[name] = self.raised.get(name, 0) + 1
+        self.raised_by_turn.setdefault(self.turn, set()).add(name)
 
 
 def _mk_raiser(env: _Env, site: dict, exc_name: str, orig, mode="before"):
@@ -356,7 +370,7 @@ def _mk_raiser(env: _Env, site: dict, exc_name: str, orig, mode="before"):
         env.hits[name] = env.hits.get(name, 0) + 1
         if mode == "after":  # the callable does its work, then fails (e.g. the report / return value is lost)
             orig(*a, **k)
-        env.raised[name] = env.raised.get(name, 0) + 1
+        env.mark(name)
         raise EXC[exc_name]("injected fault (C20) at " + name)
 
     return spy
@@ -399,23 +413,24 @@ class _RaisingIndex:
         self._env.hits[n] = self._env.hits.get(n, 0) + 1
         if self._real is not None:
             self._real.add(*a, **k)
-        self._env.raised[n] = self._env.raised.get(n, 0) + 1
+        self._env.mark(n)
         raise EXC[self._exc]("injected fault (C20) at " + n)
 
 
-def _store_double(env, mode, site=None, exc_name=None):
-    """apply_deltas double. mode: ok | idle | all | batch. The batch call is recognised as the first call of a turn
-    (env.store_calls is reset by the turn loop)."""
+def _store_double(env, site=None, exc_name=None):
+    """apply_deltas double. env.store_mode: ok | idle | all | batch (set per turn by the turn loop). The batch call is
+    recognised as the first call of a turn (env.store_calls is reset by the turn loop)."""
     env.store_calls = 0
 
     def apply_deltas(gid, deltas):
         deltas = list(deltas)
         env.store_calls += 1
         first = env.store_calls == 1
+        mode = env.store_mode
         if mode == "all" or (mode == "batch" and first):
             n = site["name"]
             env.hits[n] = env.hits.get(n, 0) + 1
-            env.raised[n] = env.raised.get(n, 0) + 1
+            env.mark(n)
             raise EXC[exc_name]("injected fault (C20) at " + n)
         if mode == "idle":
             return {"edits": 0, "clamps": 0}
@@ -515,7 +530,8 @@ def entry_bytes(e) -> bytes:
 
 
 def run_world(w: dict, over: dict, faults, *, boot_entries=None, booting=False, store="ok", keep_snap=False, store_w=False):
-    """Run all turns of world `w` under config overrides `over` with `faults` installed.
+    """Run all turns of world `w` under config overrides `over` (one dict, or a list with one dict per turn; `store`
+    likewise) with `faults` installed.
     Returns dict(exc, lines, logs (all canonical incl. health), counts, hits, raised, nontrivial_world, snaps)."""
     import clematis.engine.orchestrator as orch
     import clematis.engine.orchestrator.core as core
@@ -564,15 +580,22 @@ def run_world(w: dict, over: dict, faults, *, boot_entries=None, booting=False, 
             _patch_attr(env, core, "load_latest_snapshot", load_wrapper)
             _patch_attr(env, snapmod, "_read_text", read_wrapper)
             if store_mode is not None:
-                eng.state["store"].apply_deltas = _store_double(env, store_mode[0], store_mode[1], store_mode[2])
+                eng.state["store"].apply_deltas = _store_double(env, store_mode[1], store_mode[2])
             else:
-                eng.state["store"].apply_deltas = _store_double(env, store)
+                eng.state["store"].apply_deltas = _store_double(env)
             orch.t3_deliberate = delib
-            cfg = eng.cfg(over)
+            cfgs = {}
             nt_t1 = nt_t2 = False
             for i, t in enumerate(w["turns"], 1):
                 cur["t"] = t
                 env.store_calls = 0
+                env.turn = i - 1
+                env.store_mode = store_mode[0] if store_mode is not None else (store[i - 1] if isinstance(store, list) else store)
+                ov = over[i - 1] if isinstance(over, list) else over
+                ck = id(ov)
+                if ck not in cfgs:
+                    cfgs[ck] = eng.cfg(ov)
+                cfg = cfgs[ck]
                 tid = i if t.get("tid", "int") == "int" else str(i)
                 r = eng.turn(t["agent"], t["text"], cfg, tid, world.NOW_MS + i * 1000)
                 out["exc"].append(r["exc"])
@@ -597,6 +620,7 @@ def run_world(w: dict, over: dict, faults, *, boot_entries=None, booting=False, 
         out["listing"] = sorted(logs)
         out["hits"] = dict(env.hits)
         out["raised"] = dict(env.raised)
+        out["raised_by_turn"] = [sorted(env.raised_by_turn.get(i, ())) for i in range(len(w["turns"]))]
         out["boot_reads"] = list(env.boot_reads)
         out["version"] = eng.state.get("version_etag")
         if keep_snap:
@@ -646,15 +670,26 @@ def _first_diff(a: bytes, b: bytes) -> str:
 _BASE_CACHE = {}
 
 
-def effective_cfgs(w, faults):
+def effective_cfgs(w, faults, raised_by_turn=None):
+    """(on, off): on = profile + every faulted site's subsystem switched on; off = list with one config per turn in which
+    the subsystems whose fault FIRED during that turn of the faulted run are switched off (a turn in which the site was not
+    reached -- e.g. no split candidate existed -- ran normally, so its baseline turn runs normally too)."""
     on = profile_cfg(w)
     for s, _, _ in faults:
         on = world.deep_merge(on, s["on"])
-    off = on
-    for s, _, mode in faults:
-        if mode == "before":  # 'after' faults: the subsystem did its work, the baseline is the same run without fault
-            off = world.deep_merge(off, s["off"])
-    return on, off
+    if raised_by_turn is None:
+        return on, None
+    offs, memo = [], {}
+    for fired in raised_by_turn:
+        key = tuple(fired)
+        if key not in memo:
+            off = on
+            for s, _, mode in faults:
+                if mode == "before" and s["name"] in fired:  # 'after' faults: baseline is the same run without fault
+                    off = world.deep_merge(off, s["off"])
+            memo[key] = off
+        offs.append(memo[key])
+    return on, offs
 
 
 def site_applicable(site, w):
@@ -673,7 +708,7 @@ def check_faults(case, rec=None, labels_extra=()):
     sites = [s for s, _, _ in faults]
     before = [s for s, _, m in faults if m == "before"]
     names = [s["name"] for s in sites]
-    on, off = effective_cfgs(w, faults)
+    on, _ = effective_cfgs(w, faults)
     booting = bool(w.get("boot"))
     boot_entries = None
     if booting:
@@ -681,15 +716,16 @@ def check_faults(case, rec=None, labels_extra=()):
             boot_entries = [{"name": "state_A.json", "kind": "file", "text": '{"version_etag": "9", "store"'}]
         elif w["boot"] == "own":
             boot_entries = [{"name": "state_A.json", "kind": "file", "gen": "own"}]
-    bases = {s["base"] for s in before if s["base"]}
-    base_store = "idle" if "store_idle" in bases else "ok"
-    # late boot faults on a valid snapshot: part of the snapshot was already imported -> only completion is demanded
-    completion_only = booting and w["boot"] == "own" and any("boot_late" in s["needs"] for s in before)
-    # baseline keeps the planted files unless a boot site is faulted (then: empty dir)
-    boot_faulted = any(s["group"] == "boot" for s in before)
-    base_entries = None if boot_faulted else boot_entries
-
     f = run_world(w, on, faults, boot_entries=boot_entries, booting=booting, keep_snap=True)
+    fired_any = set().union(*map(set, f["raised_by_turn"])) if f["raised_by_turn"] else set()
+    _, off = effective_cfgs(w, faults, f["raised_by_turn"])
+    # store double of the baseline, per turn: idle in the turns in which every store call raised
+    base_store = ["idle" if any(s["base"] == "store_idle" and s["name"] in fired for s in before) else "ok" for fired in f["raised_by_turn"]]
+    # late boot faults on a valid snapshot: part of the snapshot was already imported -> only completion is demanded
+    completion_only = any("boot_late" in s["needs"] and s["name"] in fired_any for s in before)
+    # a boot fault that fired => baseline = empty snapshot dir; otherwise the baseline keeps the planted entries
+    boot_faulted = any(s["group"] == "boot" and s["name"] in fired_any for s in before)
+    base_entries = None if boot_faulted else boot_entries
     sig_site = "+".join(sorted(names))
     reached = [n for n in names if f["raised"].get(n)]
     bad = [e for e in f["exc"] if e is not None]
@@ -697,13 +733,14 @@ def check_faults(case, rec=None, labels_extra=()):
         # is it the injected fault that escaped, or something else?
         escaped = "injected fault (C20)" in bad[0]
         if escaped:
-            which = bad[0].split(" at ")[-1]
+            which = bad[0].split(" at ")[-1].strip("'\" ")
+            group = SITES[which]["group"] if which in SITES else which
             for fid, ss in KNOWN_ESCAPES.items():
                 if which in ss and rec is not None and rec.is_known(fid):
                     rec.case(nontrivial=False, labels=["known:" + fid])
                     return
             raise Violation(f"fault {bad[0]!r} injected at declared fail-soft site escaped run_turn (turn {len(f['exc'])}); "
-                            f"sites {names}", case, f"escape:{which}")
+                            f"sites {names}", case, f"escape:{group}")
         # not our exception: does the fault-free baseline raise the same way?
         b = _baseline(w, off, base_entries, booting, base_store)
         if any(e is not None for e in b["exc"]):
@@ -739,13 +776,14 @@ def check_faults(case, rec=None, labels_extra=()):
             if fa != ba:
                 raise Violation(f"{k} differs from the off/idle baseline with faults {case['faults']} (reached {reached}): "
                                 f"{_first_diff(fa, ba)}", case, f"diff:{sig_site}:{k}")
-        if any(s["group"] == "sidecar" for s in sites) and f.get("snaps") != b.get("snaps"):
+        if all(s["group"] == "sidecar" for s in sites) and f.get("snaps") != b.get("snaps"):
             raise Violation(f"snapshot body differs from the fault-free run under a sidecar fault {case['faults']}", case,
                             f"diff:{sig_site}:snapshot-body")
         if f["logs"]["health.jsonl"] != b["logs"]["health.jsonl"]:
             labels.append("health_diff")
         if f["lines"] != b["lines"]:
-            labels.append("line_diff")
+            raise Violation(f"TurnResult.line differs from the off/idle baseline with faults {case['faults']} (reached {reached}): "
+                            f"{f['lines']!r} vs {b['lines']!r}", case, f"diff:{sig_site}:line")
     else:
         labels.append("completion_only")
     if rec is not None:
@@ -845,14 +883,18 @@ def minimise(case, checker, sig, budget=120):
     return case
 
 
-def _guarded(rec, case, checker, labels_extra=()):
-    """Run one enumerated case; on violation minimise and record it (continue with the enumeration)."""
+def _guarded(rec, case, checker, seen_sigs, labels_extra=()):
+    """Run one enumerated case; on the first violation of a signature minimise and record it (the enumeration continues)."""
     try:
         if labels_extra:
             checker(case, rec, labels_extra)
         else:
             checker(case, rec)
     except Violation as v:
+        if v.sig in seen_sigs:
+            rec.label("repeat_violation:" + v.sig)
+            return
+        seen_sigs.add(v.sig)
         small = minimise(v.case, checker, v.sig)
         try:
             checker(small, None)
@@ -867,6 +909,7 @@ def _guarded(rec, case, checker, labels_extra=()):
 # =====================================================================================================
 
 def sub_sites(rec, seed, shard, nshards, worlds=4):
+    _fast_tmp()
     rng = random.Random(seed)
     seen_sigs = set()
     idx = 0
@@ -884,13 +927,7 @@ def sub_sites(rec, seed, shard, nshards, worlds=4):
                 idx += 1
                 if idx % nshards != shard:
                     continue
-                n0 = len(rec.violations)
-                _guarded(rec, {"world": w, "faults": [[name, exc_name] + ([mode] if mode == "after" else [])]}, check_faults)
-                if len(rec.violations) > n0:
-                    s = rec.violations[-1]["sig"]
-                    if s in seen_sigs:
-                        rec.violations.pop()
-                    seen_sigs.add(s)
+                _guarded(rec, {"world": w, "faults": [[name, exc_name] + ([mode] if mode == "after" else [])]}, check_faults, seen_sigs)
     if shard == 0:
         for dbl in ("logs_append", "bundle_keys", "prompt_str"):
             for exc_name in EXC_NAMES:
@@ -983,6 +1020,7 @@ def combo_cases(draw):
 
 
 def sub_combos(rec, seed, shard, nshards, n=60, shrink=True):
+    _fast_tmp()
     run_hypothesis(rec, seed, combo_cases(), lambda c: check_faults(c, rec, ("combo",)), max_examples=n, shrink=shrink, name="combos")
 
 
@@ -1188,8 +1226,10 @@ def boot_contents(draw):
 
 
 def sub_bootfiles(rec, seed, shard, nshards, worlds=2, n=60, shrink=True):
+    _fast_tmp()
     rng = random.Random(seed)
     idx = 0
+    seen_sigs = set()
     for wi in range(worlds):
         w = gen_world(rng, boot=True)
         for cls, strict, entries in boot_classes(rng):
@@ -1197,7 +1237,7 @@ def sub_bootfiles(rec, seed, shard, nshards, worlds=2, n=60, shrink=True):
             if idx % nshards != shard:
                 continue
             case = {"world": w, "cls": cls, "strict": strict, "entries": entries}
-            _guarded(rec, case, check_bootfile)
+            _guarded(rec, case, check_bootfile, seen_sigs)
     run_hypothesis(rec, seed, boot_contents(), lambda c: check_bootfile(c, rec, ("generated",)), max_examples=n, shrink=shrink,
                    name="bootfiles")
 
@@ -1230,6 +1270,7 @@ def sub_boot_fuzz(rec, seed, shard, nshards, runs=300):
     if not atheris_available():
         rec.note("atheris", "not importable: fuzz sub-check skipped (the enumerated/Hypothesis sub-checks decide the property)")
         return
+    _fast_tmp()
     verif = os.path.dirname(os.path.dirname(os.path.abspath(__file__)))
     target = os.path.join(verif, "fuzz", "c20_boot_fuzz.py")
     work = tempfile.mkdtemp(prefix="c20_fz_", dir=os.environ.get("VERIF_TMP") or None)
@@ -1300,11 +1341,11 @@ def replay_boot(case):
 
 
 SUBCHECKS = [
-    Sub("sites", sub_sites, quick={"worlds": 4}, thorough={"worlds": 60}, shards_quick=4, shards_thorough=16, replay=replay_faults),
-    Sub("combos", sub_combos, quick={"n": 50}, thorough={"n": 500}, shards_quick=2, shards_thorough=8, replay=replay_faults),
-    Sub("bootfiles", sub_bootfiles, quick={"worlds": 2, "n": 40}, thorough={"worlds": 12, "n": 600}, shards_quick=2, shards_thorough=8,
+    Sub("sites", sub_sites, quick={"worlds": 3}, thorough={"worlds": 60}, shards_quick=4, shards_thorough=16, replay=replay_faults),
+    Sub("combos", sub_combos, quick={"n": 40}, thorough={"n": 400}, shards_quick=2, shards_thorough=8, replay=replay_faults),
+    Sub("bootfiles", sub_bootfiles, quick={"worlds": 2, "n": 30}, thorough={"worlds": 12, "n": 500}, shards_quick=2, shards_thorough=8,
         replay=replay_boot),
-    Sub("boot_fuzz", sub_boot_fuzz, quick={"runs": 300}, thorough={"runs": 20000}, shards_quick=1, shards_thorough=2, replay=replay_boot),
+    Sub("boot_fuzz", sub_boot_fuzz, quick={"runs": 200}, thorough={"runs": 10000}, shards_quick=1, shards_thorough=2, replay=replay_boot),
 ]
 
 KNOWN_PROBES = {}
